@@ -100,6 +100,76 @@ def face_shape(P):
     return flat, mins, tot / (2 * PI)
 
 
+def face_turns(P):
+    """(flatness, array of sines of the exterior turning angles around the Newell normal, turning number)."""
+    P = np.asarray(P, dtype=float)
+    n = len(P)
+    A = vector_area(P)
+    nA = math.sqrt(float(A @ A))
+    diam = max(float(np.linalg.norm(P[i] - P[j])) for i in range(n) for j in range(i))
+    if nA == 0.0 or diam == 0.0:
+        return float("inf"), np.full(n, -1.0), 0.0
+    N = A / nA
+    c = barycentre(P)
+    flat = max(abs(float((p - c) @ N)) for p in P) / diam
+    sins = np.zeros(n)
+    tot = 0.0
+    for i in range(n):
+        u = P[i] - P[i - 1]
+        w = P[(i + 1) % n] - P[i]
+        cr = float(np.cross(u, w) @ N)
+        lu, lw = math.sqrt(float(u @ u)), math.sqrt(float(w @ w))
+        if lu == 0.0 or lw == 0.0:
+            return float("inf"), np.full(n, -1.0), 0.0
+        sins[i] = cr / (lu * lw)
+        tot += math.atan2(cr, float(u @ w))
+    return flat, sins, tot / (2 * PI)
+
+
+def is_simple_planar(P, margin=1e-6):
+    """True when no two non-adjacent edges of the (planar) polygon come closer than margin * diameter (2-D test in the polygon's plane)."""
+    P = np.asarray(P, dtype=float)
+    n = len(P)
+    N = polygon_normal(P)
+    X = P[1] - P[0]
+    X = X / np.linalg.norm(X)
+    Y = np.cross(N, X)
+    Q = np.c_[(P - P[0]) @ X, (P - P[0]) @ Y]
+    diam = max(float(np.linalg.norm(Q[i] - Q[j])) for i in range(n) for j in range(i))
+
+    def seg_dist(a, b, c, d):
+        def pt_seg(p, s, t):
+            st = t - s
+            L2 = float(st @ st)
+            u = 0.0 if L2 == 0 else max(0.0, min(1.0, float((p - s) @ st) / L2))
+            return float(np.linalg.norm(p - (s + u * st)))
+
+        def orient(p, q, r):
+            return (q[0] - p[0]) * (r[1] - p[1]) - (q[1] - p[1]) * (r[0] - p[0])
+        o1, o2, o3, o4 = orient(a, b, c), orient(a, b, d), orient(c, d, a), orient(c, d, b)
+        if (o1 > 0) != (o2 > 0) and (o3 > 0) != (o4 > 0) and o1 * o2 != 0 and o3 * o4 != 0:
+            return 0.0
+        return min(pt_seg(a, c, d), pt_seg(b, c, d), pt_seg(c, a, b), pt_seg(d, a, b))
+    for i in range(n):
+        for j in range(i + 1, n):
+            if j == i or (j + 1) % n == i or (i + 1) % n == j:
+                continue
+            if seg_dist(Q[i], Q[(i + 1) % n], Q[j], Q[(j + 1) % n]) <= margin * diam:
+                return False
+    return True
+
+
+def star_margin_from_vertex_mean(P):
+    """min over the edges of the signed area of (p_i, p_{i+1}, mean vertex) w.r.t. the polygon's orientation, divided by diameter^2:
+    >= 0 exactly when the polygon is star-shaped around the mean of its vertices."""
+    P = np.asarray(P, dtype=float)
+    n = len(P)
+    N = polygon_normal(P)
+    c = barycentre(P)
+    diam = max(float(np.linalg.norm(P[i] - P[j])) for i in range(n) for j in range(i))
+    return min(float(np.cross(P[i] - c, P[(i + 1) % n] - c) @ N) / 2.0 for i in range(n)) / diam ** 2
+
+
 def circumradius(A, B, C):
     a, b, c = length(B, C), length(C, A), length(A, B)
     ar = polygon_area([A, B, C])
@@ -156,7 +226,11 @@ class SurfaceRef:
         self.barycenter = np.mean(V, axis=0)
         self.maxabs = float(np.max(np.abs(V)))
         # faces
-        self.face_ok = []
+        self.face_ok = []            # triangle, or planar strictly convex polygon
+        self.face_nc = []            # planar simple NON-convex polygon with clearly convex / clearly reflex corners
+        self.area_regular = []       # area judged under the plain op: face_ok, or non-convex >=5-gon star-shaped around its vertex mean
+        self.area_hard = []          # non-convex quad, or non-convex polygon that is not star-shaped around its vertex mean
+        self.reflex = set()          # (face, vertex) of reflex corners of the non-convex faces
         self.area = np.zeros(self.nF)
         self.normal = np.zeros((self.nF, 3))
         self.fbary = np.zeros((self.nF, 3))
@@ -165,17 +239,31 @@ class SurfaceRef:
             P = V[f]
             self.fbary[fi] = barycentre(P)
             self.fdiam[fi] = max(float(np.linalg.norm(P[i] - P[j])) for i in range(len(f)) for j in range(i))
+            nc = False
+            star = False
             if len(f) == 3:
                 ok = True
             else:
-                flat, mins, turn = face_shape(P)
-                ok = flat <= self.FLAT_TOL and mins >= self.TURN_SIN_MIN and abs(turn - 1.0) < 1e-6
+                flat, sins, turn = face_turns(P)
+                planar = flat <= self.FLAT_TOL and abs(turn - 1.0) < 1e-6
+                ok = bool(planar and np.min(sins) >= self.TURN_SIN_MIN)
+                if planar and not ok and np.min(np.abs(sins)) >= self.TURN_SIN_MIN and np.min(sins) < 0 and is_simple_planar(P):
+                    nc = True
+                    star = len(f) >= 5 and star_margin_from_vertex_mean(P) >= -1e-13
+                    for k in range(len(f)):
+                        if sins[k] < 0:
+                            self.reflex.add((fi, f[k]))
             self.face_ok.append(ok)
+            self.face_nc.append(nc)
+            self.area_regular.append(ok or (nc and star))
+            self.area_hard.append(nc and not star)
             A = vector_area(P)
             nA = math.sqrt(float(A @ A))
             self.area[fi] = nA
             self.normal[fi] = A / nA if nA > 0 else np.zeros(3)
         self.all_faces_ok = all(self.face_ok)
+        self.all_area_regular = all(self.area_regular)
+        self.all_area_judged = all(a or b for a, b in zip(self.area_regular, self.area_hard))
         self.total_area = float(np.sum(self.area))
         self.mean_face_area = self.total_area / self.nF
         # corners: (face, vertex) -> angle / cotangent
